@@ -43,23 +43,25 @@ def expected_margins(steps, shape):
         k = dfa.kind_of(name)
         if k == "matching_cost":
             v = (cfg.get("window_size", 5) - 1) // 2
-            cum[name] = v
+            cum[name] = (v,) * 4
         elif k == "optimization":
-            cum[name] = 40
+            cum[name] = (40,) * 4
+        elif k == "refinement" and cfg.get("refinement_method") == "verif_asym":
+            cum[name] = tuple(stubs.ASYM_MARGINS)  # a plugin whose margins differ per side
         elif k in ("aggregation", "disparity", "refinement"):
-            cum[name] = 0
+            cum[name] = (0,) * 4
         elif k == "filter":
             m = cfg["filter_method"]
             if m in ("median", "median_for_intervals"):
-                non[name] = cfg.get("filter_size", 3) * mstep
+                non[name] = (cfg.get("filter_size", 3) * mstep,) * 4
             else:
-                non[name] = min(shape[0], shape[1], int(3 * cfg.get("sigma_space", 6.0) + 1)) * mstep
-    tot = sum(cum.values())
-    glob = max([tot] + list(non.values()))
-    d = lambda v: {s: v for s in SIDES}  # noqa: E731
+                non[name] = (min(shape[0], shape[1], int(3 * cfg.get("sigma_space", 6.0) + 1)) * mstep,) * 4
+    tot = [sum(v[i] for v in cum.values()) for i in range(4)]
+    glob = [max([tot[i]] + [v[i] for v in non.values()]) for i in range(4)]
+    d = lambda v: dict(zip(SIDES, v))  # noqa: E731
     return {"cumulative margins": {n: d(v) for n, v in cum.items()},
             "non-cumulative margins": {n: d(v) for n, v in non.items()},
-            "global margins": d(glob)}, bool(cum) and bool(non), bool(non) and max(non.values()) > tot
+            "global margins": d(glob)}, bool(cum) and bool(non), bool(non) and max(v[0] for v in non.values()) > tot[0]
 
 
 def check_margins(steps, shape):
@@ -199,7 +201,7 @@ def gen_cases(draw):
                     cfg["vertical_depth"] = draw(st.sampled_from([0, 1, 3]))
             return [nm(k), cfg]
         if k == "refinement":
-            return [nm(k), {"refinement_method": draw(st.sampled_from(["vfit", "quadratic"]))}]
+            return [nm(k), {"refinement_method": draw(st.sampled_from(["vfit", "quadratic", "verif_asym"]))}]
         return [nm(k), {"validation_method": "cross_checking_accurate"}]
 
     for _ in range(draw(st.integers(0, 4))):
@@ -243,6 +245,7 @@ def gen_body(ctx: Ctx, p: dict) -> None:
             ctx.violation("C20/margins-decrease-when-step-added", f"{got['global margins']} -> {g3['global margins']} adding {p['extra']}")
     ctx.case(p, nontrivial=mixed, classes=(["non-cumulative-dominates"] if dom else []) +
              (["validation"] if len(noval) != len(steps) else []) + (["matching-cost-step>1"] if steps[0][1].get("step", 1) > 1 else []) +
+             (["plugin-with-unequal-sides"] if any(c.get("refinement_method") == "verif_asym" for _, c in steps) else []) +
              (["optimisation-with-classif-or-segm-prior"] if any(c.get("geometric_prior", {}).get("source") in ("classif", "segm")
                                                                 for _, c in steps) else []))
 
